@@ -184,7 +184,7 @@ func runResizeCase(c *core.Case) *core.Result {
 		return res
 	}
 
-	overflowPrefix := rs.OldPages > 0 && rs.NewPages > rs.OldPages && r.Chance(1, 2)
+	overflowPrefix := rs.OldPages > 0 && (rs.NewPages == 0 || rs.NewPages > rs.OldPages) && r.Chance(1, 2)
 	if !w.Open() || !w.Run(prefix) {
 		return finish()
 	}
@@ -201,7 +201,7 @@ func runResizeCase(c *core.Case) *core.Result {
 				break
 			}
 		}
-		for round := 0; round < 6; round++ {
+		for round := 0; round < 16; round++ {
 			if !w.Begin(txfile.TxOptions{EnableOverflowArea: true, WALLimit: 1000}) {
 				return finish()
 			}
@@ -210,7 +210,7 @@ func runResizeCase(c *core.Case) *core.Result {
 					return finish()
 				}
 			}
-			for i := 0; i < 1+r.Intn(3); i++ {
+			for i := 0; i < 2+r.Intn(5); i++ {
 				if cw := w.candWrite(); len(cw) > 0 {
 					if !w.Write(cw[r.Intn(len(cw))], 0, 0) {
 						return finish()
